@@ -439,7 +439,7 @@ func init() {
 	hx.Register(&hx.Prop{
 		ID:          "C08",
 		Workers:     func(tier string) int { return 16 },
-		BudgetQuick: 150 * time.Second,
+		BudgetQuick: 300 * time.Second,
 		BudgetThor:  30 * time.Minute,
 		Kind:        "schedules",
 		Rule: "breadth-first search from the empty builder to the fix-point over concrete builder states (ordered list, name table, index map; two states merge only if all three are identical): every operation of the alphabet (4 full builds, 18 single-rule incrementals, two-rule incrementals over every name pair x salience pair, removals of every 1-2-subset of the names + an absent one, syntax-error and duplicate-name texts for both build kinds) applied in every reached state, " +
